@@ -486,3 +486,25 @@ Example cross_nonvacuous :
   cross_convertible (B "template", B "TrustedSource") (B "template", B "TrustedTemplate") = false
   /\ cross_convertible (B "safehtml", B "URL") (B "template", B "TrustedSource") = false.
 Proof. vm_compute. split; reflexivity. Qed.
+
+(* ---- second-round clauses: Safe parameters keep a trusted / compiler-filled type; no mutating methods on safe types ---- *)
+Lemma second_round_ok : api_second_round_check = true.
+Proof. vm_compute. reflexivity. Qed.
+
+Theorem safe_params_keep_trusted_types f r x :
+  In f gen_funcs -> lookup_reviewed f = Some r -> In x (f_params f) -> param_role r (fst x) = Some Safe ->
+  safe_param_type_ok (snd x) = true.
+Proof.
+  intros Hf Hr Hx Hrole. pose proof second_round_ok as H. unfold api_second_round_check in H.
+  apply andb_true_iff in H as [H _]. rewrite forallb_forall in H. specialize (H f Hf).
+  unfold func_safe_params_ok in H. rewrite Hr in H. rewrite forallb_forall in H. specialize (H x Hx).
+  unfold param_safe_ok in H. rewrite Hrole in H. exact H.
+Qed.
+
+Theorem safe_types_have_no_pointer_methods f :
+  In f gen_funcs -> mem_name2 (f_pkg f, f_recv f) safe_types = true -> f_recv_ptr f = false.
+Proof.
+  intros Hf Hs. pose proof second_round_ok as H. unfold api_second_round_check in H.
+  apply andb_true_iff in H as [_ H]. rewrite forallb_forall in H. specialize (H f Hf).
+  unfold func_not_mutator_ok in H. rewrite Hs, andb_true_r in H. apply negb_true_iff in H. exact H.
+Qed.
